@@ -206,6 +206,8 @@ def run(ctx):
     r5(ctx)
     ctx.rule("R6", "template scanner keeps literal text: the position literal fragments are cut from advances only when a variable was consumed (a `$` that is no variable stays in the text)")
     r6(ctx)
+    ctx.rule("R8", "`$_`/`$$_` accept exactly the nodes `$A`/`$$A` accept: both arms of match_leaf_meta_var reject exactly (named-only variable, unnamed candidate) — decided by evaluating each arm over the four cases")
+    r8(ctx)
     ctx.rule("R7", "a spelling is accepted as a variable only after every character of its name passed the shared character class (or the name is empty / the text is exactly the sigils)")
     r7(ctx)
 
@@ -429,3 +431,118 @@ def closure_consumer_of(prog, g):
     from ..query import closure_consumer
     cons = closure_consumer(prog, g)
     return cons[1] if cons else None
+
+
+def arm_outcomes(prog, f, start, named_param, n_val, k_val, limit=300):
+    """outcomes ('accept'/'reject'/'?') of executing f from block `start` when every read of a bool reached through parameter
+    `named_param` has value n_val and `is_named()` returns k_val: constant propagation over bools (Not, Eq, Ne, BitAnd, BitOr, BitXor),
+    known switches followed, unknown switches explored on both sides"""
+    out = set()
+    work = [(start, ())]
+    seen = set()
+    steps = 0
+    T = {"true": True, "false": False}
+    S = {True: "true", False: "false"}
+    while work and steps < limit:
+        steps += 1
+        b, st = work.pop()
+        if (b, st) in seen:
+            continue
+        seen.add((b, st))
+        env = dict(st)
+        done = False
+        for s_ in f.blocks[b]["s"]:
+            if s_[0] != "A":
+                continue
+            dest, rv = s_[1], s_[2]
+            if dest[0] == 0 and not dest[1] and rv[0] == "agg" and rv[1].get("variant") in ("None", "Some"):
+                out.add("reject" if rv[1]["variant"] == "None" else "accept")
+                done = True
+                break
+            if dest[1]:
+                continue
+            l = dest[0]
+            v = None
+            def val(op):
+                if op[0] == "k":
+                    return op[1].get("v") if op[1].get("ty") == "bool" else None
+                if not op[1][1] and op[1][0] in env:
+                    return env[op[1][0]]
+                if f.locals[op[1][0]] in ("bool", "&bool") or op[1][1]:
+                    if any(o.kind == "param" and o.ref == named_param and o.proj for o in f.trace_operand(op)):
+                        return S[n_val]
+                return None
+            if rv[0] == "use":
+                v = val(rv[1])
+            elif rv[0] == "un" and rv[1] == "Not":
+                x = val(rv[2])
+                v = S[not T[x]] if x in T else None
+            elif rv[0] == "bin" and rv[1] in ("Eq", "Ne", "BitAnd", "BitOr", "BitXor"):
+                x, y = val(rv[2]), val(rv[3])
+                if x in T and y in T:
+                    a, c = T[x], T[y]
+                    v = S[{"Eq": a == c, "Ne": a != c, "BitAnd": a and c, "BitOr": a or c, "BitXor": a != c}[rv[1]]]
+            if v is None:
+                env.pop(l, None)
+            else:
+                env[l] = v
+        if done:
+            continue
+        t = f.blocks[b]["t"]
+        if t[0] == "ret":
+            out.add("?")
+            continue
+        succs = [x for x in f.succ[b] if not f.blocks[x].get("c")]
+        if t[0] == "call":
+            c = f.call_at(b)
+            if c is not None:
+                if c.name == "is_named" and c.dest and not c.dest[1]:
+                    env[c.dest[0]] = S[k_val]
+                elif c.name in ("then_some", "then") and c.args and c.args[0][0] != "k" and env.get(c.args[0][1][0]) in T and c.dest and c.dest[0] == 0:
+                    out.add("accept" if T[env[c.args[0][1][0]]] else "reject")
+                    continue
+                elif c.name in ("insert", "insert_multi"):
+                    out.add("accept")      # accepted as far as the kind of node is concerned (the binding itself may still conflict)
+                    continue
+                elif c.dest and not c.dest[1]:
+                    env.pop(c.dest[0], None)
+        elif t[0] == "switch" and t[1][0] != "k" and not t[1][1][1] and env.get(t[1][1][0]) in T:
+            si = f.switch_info(b)
+            if si and "true" in si["arms"]:
+                succs = [si["arms"][env[t[1][1][0]]]]
+        for s2 in succs:
+            work.append((s2, tuple(sorted(env.items()))))
+    return out
+
+
+def r8(ctx):
+    prog = ctx.prog
+    f0 = ctx.anchor("R8", r"^ast_grep_core::match_tree::match_leaf_meta_var$")
+    if not f0:
+        return
+    f = f0    # MetaVarEnv::insert stays a call: reaching it means "this kind of node is accepted" (the binding may still conflict)
+    sws = self_switches(f, r"meta_var::MetaVariable", param=1)
+    ctx.ob("R8", "match_leaf_meta_var/dispatch on the variable's class", bool(sws), "%d switch(es) over MetaVariable" % len(sws), where=f0.loc())
+    if not sws:
+        return
+    bi, si = sws[0]
+    tables = {}
+    for v in ("Capture", "Dropped"):
+        if v not in si["arms"]:
+            ctx.ob("R8", "match_leaf_meta_var/%s arm" % v, False, "no arm for MetaVariable::%s" % v, where=f0.loc())
+            continue
+        tab = {}
+        for n_val in (True, False):
+            for k_val in (True, False):
+                tab[(n_val, k_val)] = frozenset(arm_outcomes(prog, f, si["arms"][v], 1, n_val, k_val))
+        tables[v] = tab
+        want = {(True, True): {"accept"}, (True, False): {"reject"}, (False, True): {"accept"}, (False, False): {"accept"}}
+        bad = {k: sorted(tab[k]) for k in want if set(tab[k]) != want[k]}
+        ctx.ob("R8", "match_leaf_meta_var/%s accepts every node unless it is named-only and the node is unnamed" % v, not bad,
+               "(named-only, node named) -> accept/reject over the four cases: TT accept, TF reject, FT accept, FF accept" if not bad else
+               "the %s arm decides differently in the cases (named-only variable, candidate is named) = %s: e.g. `$$_` must stand for ANY node like `$$A`, and `$_` for named nodes only like `$A`"
+               % (v, bad), where=f0.loc())
+    if len(tables) == 2:
+        same = tables["Capture"] == tables["Dropped"]
+        ctx.ob("R8", "match_leaf_meta_var/Dropped and Capture agree on which nodes they stand for", same,
+               "identical truth tables" if same else "the non-capturing hole and the capture of the same sigil count accept different nodes", where=f0.loc())
